@@ -800,6 +800,303 @@ def r15_3(prog, rep, rid='R15.3'):
 
 
 # ------------------------------------------------------------------------------
+# finite-domain evaluation of tests on a state (shared with C13)
+#
+class Uneval(Exception):
+    pass
+
+
+class StateEval:
+    """evaluates an expression for one concrete entity state; `is_state(e)`
+    tells which sub-expressions denote that state, `names` binds local names
+    to concrete values; state value tables are folded from states.py"""
+
+    def __init__(self, prog, f, is_state, names=None):
+        self.prog = prog
+        self.f = f
+        self.is_state = is_state
+        self.names = dict(names or {})
+        self.state = None
+        self._folded = {}
+        self.tables = {
+            '_task_state_value' : prog.const('states.py', '_task_state_values'),
+            '_pilot_state_value': prog.const('states.py', '_pilot_state_values'),
+        }
+
+    def ev(self, e):
+        if self.is_state(e):
+            return self.state
+        if isinstance(e, ast.Name) and e.id in self.names:
+            return self.names[e.id]
+        if isinstance(e, ast.Constant):
+            return e.value
+        k = id(e)
+        if k not in self._folded:
+            self._folded[k] = self.prog.fold(self.f.module, e, self.f.cls)
+        v = self._folded[k]
+        if v is not UNKNOWN:
+            return v
+        try:
+            if isinstance(e, ast.Call):
+                fn = dotted(e.func).split('.')[-1]
+                args = [self.ev(a) for a in e.args]
+                if fn in self.tables and len(args) == 1:
+                    return self.tables[fn][args[0]]
+                if fn in ('min', 'max') and args:
+                    return (min if fn == 'min' else max)(
+                        args if len(args) > 1 else args[0])
+                if fn == 'len' and len(args) == 1:
+                    return len(args[0])
+                raise Uneval(unparse(e))
+            if isinstance(e, ast.Subscript):
+                return self.ev(e.value)[self.ev(e.slice)]
+            if isinstance(e, (ast.List, ast.Tuple, ast.Set)):
+                return [self.ev(x) for x in e.elts]
+            if isinstance(e, ast.UnaryOp) and isinstance(e.op, ast.Not):
+                return not self.ev(e.operand)
+            if isinstance(e, ast.BinOp) and isinstance(e.op, (ast.Add,
+                                                              ast.Sub)):
+                l, r = self.ev(e.left), self.ev(e.right)
+                return l + r if isinstance(e.op, ast.Add) else l - r
+            if isinstance(e, ast.BoolOp):
+                vals = [self.ev(x) for x in e.values]
+                return all(vals) if isinstance(e.op, ast.And) else any(vals)
+            if isinstance(e, ast.Compare):
+                left = self.ev(e.left)
+                for op, r in zip(e.ops, e.comparators):
+                    right = self.ev(r)
+                    res = {ast.Lt: lambda a, b: a < b,
+                           ast.LtE: lambda a, b: a <= b,
+                           ast.Gt: lambda a, b: a > b,
+                           ast.GtE: lambda a, b: a >= b,
+                           ast.Eq: lambda a, b: a == b,
+                           ast.NotEq: lambda a, b: a != b,
+                           ast.Is: lambda a, b: a is b or a == b,
+                           ast.IsNot: lambda a, b: not (a is b or a == b),
+                           ast.In: lambda a, b: a in b,
+                           ast.NotIn: lambda a, b: a not in b,
+                           }[type(op)](left, right)
+                    if not res:
+                        return False
+                    left = right
+                return True
+        except (KeyError, IndexError, TypeError) as ex:
+            raise Uneval('%s: %s' % (unparse(e), ex))
+        raise Uneval(unparse(e))
+
+    def holds(self, atom, state):
+        self.state = state
+        return bool(self.ev(atom))
+
+
+# ------------------------------------------------------------------------------
+# R15.4  the requested state itself satisfies the wait
+#
+def _conj_atoms(expr, pol=True):
+    if isinstance(expr, ast.UnaryOp) and isinstance(expr.op, ast.Not):
+        return _conj_atoms(expr.operand, not pol)
+    if isinstance(expr, ast.BoolOp):
+        if isinstance(expr.op, ast.And) == pol:
+            out = []
+            for v in expr.values:
+                out += _conj_atoms(v, pol)
+            return out
+        return [(expr, pol)]
+    return [(expr, pol)]
+
+
+def _min_var(f, name, var, ev):
+    """`name` accumulates the minimum of the values of the requested states:
+    init by an evaluable constant, then name = min(name, <table>[x]) inside
+    `for x in <var>`; returns (init value, element expr, loop var) or None"""
+    init, upd = None, None
+    for n in walk(f.node):
+        if isinstance(n, ast.Assign) and any(
+                isinstance(t, ast.Name) and t.id == name for t in n.targets):
+            v = n.value
+            if isinstance(v, ast.Call) and dotted(v.func) == 'min' and \
+                    len(v.args) == 2 and any(
+                        isinstance(a, ast.Name) and a.id == name
+                        for a in v.args):
+                other = [a for a in v.args
+                         if not (isinstance(a, ast.Name) and a.id == name)]
+                if len(other) != 1 or upd is not None:
+                    return None
+                upd = other[0]
+            else:
+                if init is not None:
+                    return None
+                try:
+                    init = ev.ev(v)
+                except Uneval:
+                    return None
+    if init is None or upd is None:
+        return None
+    for n in walk(f.node):
+        if isinstance(n, ast.For) and isinstance(n.iter, ast.Name) and \
+                n.iter.id == var and isinstance(n.target, ast.Name) and \
+                any(x is upd for b in n.body for x in walk(b)):
+            return (init, upd, n.target.id)
+    return None
+
+
+def keep_conditions(f, g, head):
+    """[(entity variable, [(atom, polarity)], ast)]: conditions under which
+    an awaited entity stays on the check list of the polling loop"""
+    body = g.loop_body[head]
+    loop = g.loop_ast[head]
+    tested = {n.id for n in walk(loop.test) if isinstance(n, ast.Name)}
+    out = []
+    smap = None
+    for n in g.nodes:
+        if n.id not in body or n.ast is None:
+            continue
+        if n.kind == 'stmt' and isinstance(n.ast, ast.Assign) and \
+                isinstance(n.ast.value, (ast.ListComp, ast.GeneratorExp)) and \
+                any(isinstance(t, ast.Name) and t.id in tested
+                    for t in n.ast.targets):
+            v = n.ast.value
+            if len(v.generators) == 1 and \
+                    isinstance(v.generators[0].target, ast.Name):
+                atoms = []
+                for c in v.generators[0].ifs:
+                    atoms += _conj_atoms(c)
+                out.append((v.generators[0].target.id, atoms, n.ast))
+        if n.kind == 'stmt':
+            for c in calls_in(n.ast):
+                if isinstance(c.func, ast.Attribute) and \
+                        c.func.attr == 'append' and len(c.args) == 1 and \
+                        isinstance(c.args[0], ast.Name):
+                    ev = c.args[0].id
+                    h = None
+                    for hh in reversed(n.loops):
+                        hn = g.nodes[hh]
+                        if hn.kind == 'for' and hh in body and \
+                                ev in stores_in_target(hn.ast.target):
+                            h = hn
+                            break
+                    if h is None or not (isinstance(h.ast.iter, ast.Name) and
+                                         h.ast.iter.id in tested):
+                        continue
+                    from ..flow import guards, loop_slice
+                    start = loop_slice(g, h.id)[0]
+                    atoms = [(g.nodes[t].ast, lab == 'T')
+                             for t, lab in guards(g, n.id, start=start)]
+                    out.append((ev, atoms, c))
+    return out
+
+
+def r15_4(prog, rep, rid='R15.4'):
+    rep.rule(rid, 'wait_tasks / wait_pilots: an entity that is in a requested '
+             '(non-final) state, or is final, leaves the check list; one that '
+             'is still before every requested state stays on it (evaluated '
+             'over the folded state tables)', minimum=4)
+    final = _final(prog)
+    for rel, cname, mname, what in ANCHORS[2:]:
+        f = prog.method(rel, cname, mname)
+        rep.saw(f)
+        g = cfg_of(f)
+        head = wait_loop(f, g)
+        pname, var, _ = normalisation(prog, f, g, head)
+        table = prog.const('states.py', '_%s_state_values' % what)
+        domain = [s for s in table if s is not None]
+        keeps = keep_conditions(f, g, head)
+        if not keeps:
+            raise AnalysisError('UNRECOGNISED-IDIOM %s: no statement keeps '
+                                'entities on the check list of the polling '
+                                'loop' % f.where)
+        for evar, atoms, site in keeps:
+            def is_state(e, evar=evar):
+                return isinstance(e, ast.Attribute) and \
+                    e.attr in STATE_ATTRS and \
+                    isinstance(e.value, ast.Name) and e.value.id == evar
+            ev = StateEval(prog, f, is_state)
+            # names the atoms read
+            relevant = []
+            minvars = {}
+            for atom, pol in atoms:
+                names = {n.id for n in walk(atom) if isinstance(n, ast.Name)
+                         and isinstance(n.ctx, ast.Load)}
+                if not (reads_state_attr(atom) and evar in names or
+                        var in names or names & set(minvars)):
+                    mv = [x for x in names
+                          if x not in (evar, var) and
+                          _min_var(f, x, var, ev) is not None]
+                    if not mv:
+                        continue
+                for x in names - {evar, var}:
+                    m = _min_var(f, x, var, ev)
+                    if m is not None:
+                        minvars[x] = m
+                relevant.append((atom, pol))
+            requests = [[r] for r in domain] + \
+                       [[a, b] for a in domain for b in domain if a != b]
+            stuck, early = [], []
+            try:
+                for R in requests:
+                    ev.names = {var: list(R)}
+                    for x, (init, elt, lv) in minvars.items():
+                        vals = [init]
+                        for r in R:
+                            ev.names[lv] = r
+                            vals.append(ev.ev(elt))
+                        ev.names.pop(lv, None)
+                        ev.names[x] = min(vals)
+                    low = min(table[r] for r in R)
+                    for s in domain:
+                        kept = all(ev.holds(a, s) == pol
+                                   for a, pol in relevant)
+                        if kept and (s in final or any(
+                                table[r] == table[s] for r in R)):
+                            stuck.append((s, R))
+                        if not kept and s not in final and table[s] < low:
+                            early.append((s, R))
+            except Uneval as e:
+                raise AnalysisError('UNRECOGNISED-IDIOM %s: cannot evaluate '
+                                    'the keep-waiting condition `%s` over the '
+                                    'state table (%s)' % (
+                                        f.where, ' and '.join(
+                                            ('%s' if p else 'not (%s)')
+                                            % short(a, 50)
+                                            for a, p in relevant), e))
+            rep.stat('state_combinations', len(requests) * len(domain))
+            cond = ' and '.join(('%s' if p else 'not (%s)') % unparse(a)
+                                for a, p in relevant) or 'True'
+            ex = stuck[0] if stuck else None
+            rep.check(not stuck, rid, f, '%s: a %s that is in a requested '
+                      'state (or final) is dropped from the check list'
+                      % (f.qual, what),
+                      construct='keeps waiting when: %s' % cond,
+                      message='%s: a %s stays on the check list while `%s`, '
+                      'which still holds when it is in state %s and %s was '
+                      'requested (%d such combinations, e.g. %s): the wait '
+                      'does not return although the requested state is '
+                      'reached' % (f.qual, what, short(cond, 120),
+                                   ex[0] if ex else '', ex[1] if ex else '',
+                                   len(stuck), sorted({x[0] for x in stuck})),
+                      loc=f.loc(site),
+                      history='%s.%s(state=%r) while the %s rests in %r: the '
+                      'call returns only when the %s moves on (or at the '
+                      'timeout)' % (cname, mname, ex[1][0] if ex else '', what,
+                                    ex[0] if ex else '', what))
+            ex = early[0] if early else None
+            rep.check(not early, rid, f, '%s: a non-final %s that is before '
+                      'every requested state stays on the check list'
+                      % (f.qual, what),
+                      construct='stops waiting although: not (%s)' % cond,
+                      message='%s: a %s in state %s is dropped from the check '
+                      'list although %s was requested and no requested state '
+                      'was reached yet (%d such combinations): the wait '
+                      'returns without waiting' % (
+                          f.qual, what, ex[0] if ex else '',
+                          ex[1] if ex else '', len(early)),
+                      loc=f.loc(site),
+                      history='%s.%s(state=%r) while the %s is in %r: returns '
+                      'at once' % (cname, mname, ex[1][0] if ex else '', what,
+                                   ex[0] if ex else ''))
+
+
+# ------------------------------------------------------------------------------
 #
 def run(prog, rep, tier):
     rep.decided = ('for Task.wait, Pilot.wait, TaskManager.wait_tasks and '
@@ -829,6 +1126,7 @@ def run(prog, rep, tier):
     r15_1(prog, rep)
     r15_2(prog, rep)
     r15_3(prog, rep)
+    r15_4(prog, rep)
 
 
 # ------------------------------------------------------------------------------
@@ -852,6 +1150,8 @@ FIX_F02_R = (_P, "            if self.state in states:\n                return\n
 _LOOP_OLD   = "        while self.state not in states:\n\n            time.sleep(0.1)\n"
 _LOOP_FIXED = ("        while self.state not in states and \\\n"
                "              self.state not in rps.FINAL:\n\n            time.sleep(0.1)\n")
+
+_CMP = "                    rps._task_state_values[task.state] < check_state_val:"
 
 _P_NORM = ("        if   not state                  : states = rps.FINAL\n"
            "        elif not isinstance(state, list): states = [state]\n"
@@ -955,9 +1255,36 @@ MUTATIONS = [
              "        start_wait = time.time()\n        current = self.state\n        while self.state not in states and \\\n"),
         (_P, "            if self._pmgr._terminate.is_set():\n                break\n\n        return self.state\n",
              "            if self._pmgr._terminate.is_set():\n                break\n\n        return current\n")]),
+    dict(name='R15.4 wait_tasks: requested state itself keeps waiting (<=)',
+         rules=('R15.4',), edits=[
+        (_TM, _CMP, _CMP.replace("< check_state_val", "<= check_state_val"))]),
+    dict(name='R15.4 wait_tasks: comparison reversed', rules=('R15.4',), edits=[
+        (_TM, _CMP, _CMP.replace("< check_state_val", "> check_state_val"))]),
+    dict(name='R15.4 wait_tasks: earliest requested value starts at 0',
+         rules=('R15.4',), edits=[
+        (_TM, "        check_state_val = rps._task_state_values[rps.FINAL[-1]]\n",
+              "        check_state_val = 0\n")],
+         note='min() never rises above 0: nothing is waited for'),
+    dict(name='R15.4 wait_tasks: compares with the value after the requested one',
+         rules=('R15.4',), edits=[
+        (_TM, _CMP, _CMP.replace("< check_state_val", "< check_state_val + 1"))]),
+    dict(name='R15.4 wait_pilots: pilots in a requested state stay on the list',
+         rules=('R15.4',), edits=[
+        (_PM, "                               if pilot.state not in states and\n",
+              "                               if pilot.state in states and\n")]),
 ]
 
 SILENT = [
+    dict(name='wait_tasks: value comparison mirrored', edits=[
+        (_TM, _CMP, "                    check_state_val > rps._task_state_values[task.state]:")]),
+    dict(name='wait_tasks: value comparison as negated >=', edits=[
+        (_TM, _CMP, "                    not rps._task_state_values[task.state] >= check_state_val:")]),
+    dict(name='wait_tasks: value through the accessor function', edits=[
+        (_TM, _CMP, "                    rps._task_state_value(task.state) < check_state_val:")]),
+    dict(name='wait_pilots: filter conditions swapped', edits=[
+        (_PM, "                               if pilot.state not in states and\n                                  pilot.state not in rps.FINAL]",
+              "                               if pilot.state not in rps.FINAL and\n                                  pilot.state not in states]")]),
+
     dict(name='final-state escape as an explicit break in the body', edits=[
         (_T, _LOOP_FIXED,
              "        while self.state not in states:\n\n            if self.state in rps.FINAL:\n                break\n\n            time.sleep(0.1)\n")]),
